@@ -160,6 +160,32 @@ def run(ctx):
                                "goal_prefixes": [a["name"] for a in pre], "driver": stats,
                                "events_validated_after_prefix_dedupe": v["events"]})
 
+    # ---------------- C. library schedules for validator sets / faulty validators not among the configurations above
+    covered = set()
+    for (tag, powers, bi) in (("eq0", [1, 1, 1, 1], 0), ("eq3", [1, 1, 1, 1], 3), ("w2", [2, 2, 1, 1], 2)):
+        covered.add((tuple(powers), bi))
+    libdir = os.path.join(core.VERIF, "spec", "attacks", "C03")
+    groups = {}
+    for f in sorted(os.listdir(libdir)) if os.path.isdir(libdir) else []:
+        if f.endswith(".json"):
+            with open(os.path.join(libdir, f)) as fh:
+                a = json.load(fh)
+            groups.setdefault((tuple(a["powers"]), tuple(a["byz"])), []).append(a)
+    for (powers, byzl), lst in sorted(groups.items()):
+        powers, byzl = list(powers), list(byzl)
+        infoL = cc.run_driver(ctx, binp, {"mode": "info", "powers": powers, "byz": [], "maxround": 16}, "infoL")
+        if (tuple(powers), infoL["names"].index(byzl[0])) in covered:
+            continue
+        scheds = [{"id": 400000 + 10 * k + rep, "steps": a["steps"]} for k, a in enumerate(lst) for rep in range(3)]
+        inp = {"mode": "replay", "powers": powers, "byz": byzl, "maxround": 14, "scheds": scheds, "synctail": True,
+               "syncmax": 2 * len(powers), "byzafter": True, "random": 20 if quick else 500, "randlen": 70}
+        tag = "lib" + "".join(str(x) for x in powers) + byzl[0]
+        rows, stats = cc.run_driver(ctx, binp, inp, tag)
+        v = cc.validate(ctx, rows, infoL, byzl, 14, tag, dedupe=True)
+        account(v, rows, "library " + tag)
+        cov["configs"].append({"config": "powers %s, faulty %s: committed attack / prefix schedules + synchronous suffix" % (powers, byzl),
+                               "schedules": [a["name"] for a in lst], "driver": stats, "events_validated_after_prefix_dedupe": v["events"]})
+
     hist = {}
     for x in tot["extra"].values():
         hist[x] = hist.get(x, 0) + 1
